@@ -81,6 +81,16 @@ CHECKS = {
             'Comprehension targets and except-clause names excluded (property text); PEP 709 save/restore stores ignored; '
             '"actually reads" = bytecode of the statement line.',
             'DESIGN.md 2/C08'),
+    'C09': ('exploration',
+            'complete enumeration of signature shapes x default kinds, closure shapes and entity kinds; all call bindings per case',
+            '1.9k signature shapes (positional-only / positional / *args / keyword-only / **kw with every legal assignment of no / '
+            'immutable / mutable defaults) plus 6 closure shapes x 7 entity kinds: inspect.signature, identity of default objects, '
+            '__globals__ identity, closure cell identity by name, default expressions and decorators evaluated exactly once, results '
+            'of every call binding (130k calls) for to_graph and for the convert() wrapper, rebinding through a sibling / nonlocal '
+            'seen on both sides, a second function of the same factory gets its own cells.',
+            'Each case embeds a unique constant so that code objects of different cases never compare equal (cache aliasing is '
+            'C10\'s subject).',
+            'DESIGN.md 2/C09'),
     'C11': ('exploration',
             'exhaustive enumeration of adversarial identifier x role x control skeleton; differential execution on all tapes + Namer.new_symbol interception',
             'Each name of the converter vocabulary (19 quick; + numbered variants and pairs thorough) is placed in 12 roles (state '
